@@ -84,6 +84,25 @@ func cmdFn(args []string) {
 		e.IfaceImpls(ct)
 	}
 	start := time.Now()
+	if os.Getenv("GOVC_FORKSTATS") != "" {
+		sym.ForkStats = map[string]int{}
+		defer func() {
+			type kv struct {
+				k string
+				v int
+			}
+			var xs []kv
+			for k, v := range sym.ForkStats {
+				xs = append(xs, kv{k, v})
+			}
+			sort.Slice(xs, func(i, j int) bool { return xs[i].v > xs[j].v })
+			for i, x := range xs {
+				if i < 40 {
+					fmt.Fprintf(os.Stderr, "FORK %6d %s\n", x.v, x.k)
+				}
+			}
+		}()
+	}
 	fr := e.Env.VerifyFunc(fn, ct, *maxPaths)
 	fmt.Printf("%s: %d paths (capped=%v) in %.2fs\n", fn, len(fr.Paths), fr.Capped, time.Since(start).Seconds())
 	outc := map[string]int{}
